@@ -55,7 +55,7 @@ RULE = ('(lex) token streams of seeded strings, real ply lexer vs model lexer, c
         'separators, NEL, CR, VT, FF, Roman / circled numerals, square metre, half-width katakana) else one of `ab 1`, and 14 '
         'fixed ones (empty, blank, lone / trailing / doubled backslash, each quote inside the other style, 200 characters): the '
         'value must be exactly the characters between the quotes; (ws) 500 formulas of C04\'s tree generator (depth 1..4, no '
-        'error, blank or non-dyadic leaves) on C04\'s re-entrant host, each with minimal parentheses, with seeded blank / two blanks / tab / newline '
+        'error, blank or non-dyadic leaves) on C04\'s re-entrant host, each with minimal parentheses, with seeded blank / two blanks / tab / newline / CR LF (c04.add_space) '
         'before and a blank after operators, parentheses and commas, and with a leading blank and a trailing newline: same '
         'outcome (floats within 1e-12 relative); (sep) 200 lists of 1..5 arguments (integers 0..49, 20% quoted texts) + 128 '
         'lists that pair quoted texts spelling a separator or operator (comma, semicolon, two backslashes and a blank, . & % ^) '
@@ -103,7 +103,7 @@ TRUSTED = ['the regular-expression engine `re` (each token rule has a hand-writt
            'a range = the rectangle spanned by its two corners, smaller index first) and its integer sum over the sheet, against '
            'which the values of the grid- and label-addressed hosts are compared; SUM of integers and the registered function G '
            '(returns its arguments) as carriers of the values']
-ASSUMPTIONS = ['white space is blank, tab and newline; it is never inserted between a function name and its parenthesis, nor inside a '
+ASSUMPTIONS = ['white space is blank, tab and newline (kind ws also writes the two-character line end CR LF); it is never inserted between a function name and its parenthesis, nor inside a '
                'token (between the two characters of <= >= <>, inside a name, number or quoted literal); a range is three tokens: '
                'white space on either side of its `:` changes neither the outcome nor the cells the host is asked for',
                'an integer literal may have leading zeros (007 is 7); every numeric literal must evaluate without error to a '
